@@ -3,6 +3,7 @@ import itertools
 import random
 
 from vmon import gens as G
+from vmon.gens import THOROUGH_SCALE as TS
 from vmon import oracles as O
 from vmon import search as S
 
@@ -126,7 +127,7 @@ def generate(tier, seed):
     for s in (["A"], [""], ["", ""], ["A", ""], ["CASSF", "CASSF"]):
         yield "ham_self", {"seqs": s, "k": 1, "engines": ALL4}, True
     pools = [G.universe("AC", 5), G.universe("ACD", 4), G.universe("AWY", 4), G.universe("ACDW", 3)]
-    n_rand = 5000 if thorough else 300
+    n_rand = 5000 * TS if thorough else 300
     for i in range(n_rand):
         pool = pools[i % len(pools)]
         seqs = G.small_multiset(rng, pool, 1, 40)
@@ -136,7 +137,7 @@ def generate(tier, seed):
         if i % 3 == 0:
             q = G.small_multiset(rng, pool, 1, 15)
             yield "ham_cross", {"refs": seqs, "queries": q, "k": k}, i < 60
-    n_rep = 300 if thorough else 25
+    n_rep = 300 * TS if thorough else 25
     for i in range(n_rep):
         n = rng.randint(30, 120) if not thorough else rng.randint(50, 300)
         seqs = G.repertoire(rng, n, families=max(2, n // rng.choice([4, 8])), lo=4, hi=9)
